@@ -169,7 +169,7 @@ def run_property(prop, tier, seed, keep=False):
         if pending:
             from concurrent.futures import ThreadPoolExecutor
             with ThreadPoolExecutor(max_workers=8) as ex:
-                pb = list(ex.map(lambda t: kanirun.playback(base, t[0], t[1], t[5], t[6] + 600, t[2].get("unwindset")), pending))
+                pb = list(ex.map(lambda t: kanirun.playback(base, t[0], t[1], t[5], t[6] + 600, t[2].get("unwindset"), t[2].get("cbmc_args")), pending))
             for (h, feats, r, unknown, sample, mem, htime), (tests, pout) in zip(pending, pb):
                 confirmed = None
                 tried = []
